@@ -400,6 +400,14 @@ mod inner {
         }
 
         pub fn push(&mut self, value: f64) {
+            // Same as the compact variant: only positive values are stored as
+            // is, everything else counts as zero.
+            let value = if value.to_bits() > 0 && value.is_sign_positive() {
+                value
+            } else {
+                0.0
+            };
+
             self.inner.push(value);
         }
 
